@@ -116,11 +116,19 @@ class OracleMixin:
         if pr.closed:
             self.violate("C08.nothing_after", f"task {t.tid} begins after gather_and_close returned")
         if t.unbegun_cancelled:
-            self.violate("C06.deliveries", f"task {t.tid} was cancelled before its first step and begins anyway")
+            self.delivery_violation(t, f"task {t.tid} was cancelled before its first step and begins anyway")
         elif rq.kind != "sfunc" and rq.cancelled_at is not None and rq.kind != "start":
             self.violate("C07.no_start_after", f"task {t.tid} of cancelled group {rq.group} begins")
         if t.claim is not None and req.kind != "sfunc" and t.claim is not req:
             self.violate("C10.group_ids", f"task {t.tid} runs an invocation of request {req.idx} but is listed in group {t.claim.group}")
+
+    def delivery_violation(self, t, msg):
+        """A requested cancellation was not (exactly) delivered: blame every route that asked for it."""
+        self.violate("C06.deliveries", msg)
+        if "group" in t.vias:
+            self.violate("C07.members_cancelled", msg + " (requested by a group cancellation)")
+        if "stop" in t.vias:
+            self.violate("C14.targets", msg + " (requested by stop())")
 
     def on_finish(self, pr, t):
         self.sit["end." + t.outcome] += 1
@@ -128,6 +136,8 @@ class OracleMixin:
     def on_cancel_seen(self, t, where):
         if t.seen > t.owed:
             self.violate("C06.bystander", f"task {t.tid} observed a CancelledError ({where}) it was not owed (seen {t.seen}, owed {t.owed})")
+            if t.pool.group_cancels:
+                self.violate("C07.siblings", f"task {t.tid} observed a CancelledError ({where}) it was not owed, in a pool where groups were cancelled")
         if where == "cb":
             self.sit["cancel_seen_in_cb"] += 1
 
@@ -196,7 +206,7 @@ class OracleMixin:
                 self.triggers.add(f"T.self_cancel_no_suspend@{t.pool.idx}")
                 self.sit["self_cancel_no_suspend"] += 1
             if t.seen != t.owed:
-                self.violate("C06.deliveries", f"task {t.tid}: observed {t.seen} cancellations, owed {t.owed}")
+                self.delivery_violation(t, f"task {t.tid}: observed {t.seen} cancellations, owed {t.owed}")
             elif t.owed:
                 self.sit["C06.delivered_exact"] += 1
 
@@ -439,6 +449,12 @@ class OracleMixin:
     def final_pool(self, pr, after_close):
         n0 = len(self.viol)
         self._final_pool(pr, after_close)
+        if pr.group_cancels:
+            for v in list(self.viol[n0:]):
+                if v["clause"].startswith(("C04.count", "C04.skip", "C05.once_in_order", "C05.skip")):
+                    self.violate("C07.siblings", "a request of a group that was never cancelled did not complete in a run with group cancellations: " + v["msg"])
+            if len(self.viol) == n0:
+                self.sit["C07.siblings_ok"] += 1
         if self.excs:
             for v in list(self.viol[n0:]):
                 c = v["clause"]
@@ -465,7 +481,7 @@ class OracleMixin:
             if hc and ended and t.expects_ccb() and t.ccb != 2:
                 self.violate("C03.cancel_cb_iff", f"task {tid} ended by cancellation ({'before its first step' if not t.begun else 'in its body'}) without a cancel callback")
             if t.pending and not t.complete:
-                self.violate("C06.deliveries", f"task {tid} still has an undelivered cancellation at the end")
+                self.delivery_violation(t, f"task {tid} still has an undelivered cancellation at the end")
             if not t.begun and not t.unbegun_cancelled and not stuck_ok:
                 self.violate("C02.end_cb_once", f"task {tid} was created, never cancelled, and never began")
         if pr.closed and after_close:
